@@ -1,5 +1,6 @@
 (** C04 — proofs: the writer loop is the proved resequencer followed by a fold of the emit action. *)
 From Coq Require Import List Arith NArith Bool Lia Permutation.
+From OBI.C04 Require Import Json Csv JsonProofs CsvProofs.
 From OBI.Common Require Import Reseq.
 From OBI.C04 Require Import Model.
 Import ListNotations.
@@ -145,3 +146,120 @@ Proof.
   - inversion Hne; subst. rewrite IH by (auto; lia). unfold jorig_e1.
     destruct (Nat.ltb_spec 0 k); [|lia]. unfold seps, dwrite; simpl. f_equal. now rewrite <- !app_assoc.
 Qed.
+
+(** ================= round 2: theorems over RECORDS *)
+
+(** ---- JSON: the chunks are FormatJSONBatch of the serialised records *)
+Lemma jseps_app xs ys : JsonProofs.seps (xs ++ ys) = JsonProofs.seps xs ++ JsonProofs.seps ys.
+Proof. unfold JsonProofs.seps. now rewrite map_app, concat_app. Qed.
+
+Lemma fjb_cons r b : format_json_batch (r :: b) = indent r ++ JsonProofs.seps (map indent b).
+Proof. reflexivity. Qed.
+
+Lemma seps_filter_chunks bs :
+  seps (filter nonempty (json_chunks bs)) = JsonProofs.seps (map indent (concat bs)).
+Proof.
+  induction bs as [|b bs IH]; [reflexivity|].
+  destruct b as [|r b]; [exact IH|].
+  unfold json_chunks in *. cbn [map]. rewrite fjb_cons. cbn [filter nonempty is_nil indent app negb].
+  change (seps ((32%N :: 32%N :: r ++ JsonProofs.seps (map indent b)) :: filter nonempty (map format_json_batch bs)))
+    with (json_sep ++ (indent r ++ JsonProofs.seps (map indent b)) ++ seps (filter nonempty (map format_json_batch bs))).
+  rewrite IH. cbn [concat]. rewrite map_app, jseps_app. cbn [map].
+  change (JsonProofs.seps (indent r :: map indent b)) with (jsep ++ indent r ++ JsonProofs.seps (map indent b)).
+  change json_sep with jsep. rewrite <- !app_assoc. reflexivity.
+Qed.
+
+Lemma join_filter_chunks bs :
+  join json_sep (filter nonempty (json_chunks bs)) = jjoin jsep (map indent (concat bs)).
+Proof.
+  induction bs as [|b bs IH]; [reflexivity|].
+  destruct b as [|r b]; [exact IH|].
+  unfold json_chunks in *. cbn [map]. rewrite fjb_cons. cbn [filter nonempty is_nil indent app negb].
+  change (join json_sep ((32%N :: 32%N :: r ++ JsonProofs.seps (map indent b)) :: filter nonempty (map format_json_batch bs)))
+    with ((indent r ++ JsonProofs.seps (map indent b)) ++ seps (filter nonempty (map format_json_batch bs))).
+  pose proof (seps_filter_chunks bs) as E. unfold json_chunks in E. rewrite E. cbn [concat]. rewrite map_app. cbn [map app].
+  change (jjoin jsep (indent r :: map indent b ++ map indent (concat bs)))
+    with (indent r ++ JsonProofs.seps (map indent b ++ map indent (concat bs))).
+  rewrite jseps_app, <- !app_assoc. reflexivity.
+Qed.
+
+(** the JSON writer over records: exact bytes, ONE grammatical JSON text, an array whose elements
+    are the serialised records of all batches in order *)
+Lemma json_records_spec (batches : list (list (list N))) arr :
+  Forall (fun r => json_object r = true) (concat batches) ->
+  Permutation arr (numbered (json_chunks batches)) ->
+  json_writer arr = mkdev (json_records_expected (concat batches)) 1 /\
+  json_text (got (json_writer arr)) = true /\
+  json_array_objects (got (json_writer arr)) = Some (concat batches).
+Proof.
+  intros Ho P. rewrite (json_spec _ _ P). unfold json_expected. rewrite join_filter_chunks.
+  split; [reflexivity|]. cbn [got]. split.
+  - apply (array_text_valid _ Ho).
+  - apply (array_text_elements _ Ho).
+Qed.
+
+(** ---- CSV: the chunks are FormatCVSBatch of the rows; the header is inside chunk 0 *)
+Lemma csv_rows_from hdr bs : forall k, 0 < k ->
+  concat (csv_batches_from hdr k bs) = concat (map csv_line (concat bs)).
+Proof.
+  induction bs as [|b bs IH]; intros k Hk; [reflexivity|].
+  cbn [csv_batches_from concat]. rewrite IH by lia. unfold format_csv_batch.
+  destruct k; [lia|]. cbn [Nat.eqb app]. now rewrite map_app, concat_app.
+Qed.
+Lemma csv_record_chunks_concat hdr bs : concat (csv_record_chunks hdr bs) = csv_expected hdr bs.
+Proof.
+  unfold csv_record_chunks, csv_expected. destruct bs as [|b bs]; [reflexivity|].
+  cbn [csv_batches_from concat]. rewrite csv_rows_from by lia. unfold format_csv_batch. cbn [Nat.eqb].
+  now rewrite map_app, concat_app, <- app_assoc.
+Qed.
+
+Lemma csv_records_spec hdr (batches : list (list (list field))) arr :
+  Permutation arr (numbered (csv_record_chunks hdr batches)) ->
+  csv_writer arr = mkdev (csv_expected hdr batches) 1.
+Proof.
+  intros P. unfold csv_writer. rewrite (wrun_any_permutation _ emit_raw dev0 _ arr P), foldi_raw.
+  cbn [got closes dev0 app dclose]. now rewrite csv_record_chunks_concat.
+Qed.
+
+(* ... and the text is decodable: header then one row per record, in order *)
+Lemma csv_rows_decodable hdr (batches : list (list (list field))) arr : batches <> [] -> hdr <> [] ->
+  Forall (fun r => r <> []) (concat batches) ->
+  Permutation arr (numbered (csv_record_chunks hdr batches)) ->
+  csv_records (got (csv_writer arr)) = Some (hdr :: concat batches).
+Proof.
+  intros Hb Hh Hr P. rewrite (csv_records_spec _ _ _ P). cbn [got]. unfold csv_expected.
+  destruct batches as [|b bs]; [congruence|].
+  change (csv_line hdr ++ concat (map csv_line (concat (b :: bs)))) with (concat (map csv_line (hdr :: concat (b :: bs)))).
+  apply csv_roundtrip. constructor; assumption.
+Qed.
+
+(** ---- completion order *)
+Lemma closer_sees_closed : sees_closed closer = Some true.
+Proof. reflexivity. Qed.
+Lemma closer_orig_sees_open : sees_closed closer_orig = Some false.
+Proof. reflexivity. Qed.
+(* every script that ends the iterator only after having waited for the writer is safe; waiting
+   before the channel is closed blocks *)
+Lemma wait_before_close_blocks : sees_closed [AWaitWriter; AChanClose; AIterClose] = None.
+Proof. reflexivity. Qed.
+Lemma cstep_none l : fold_left cstep l None = None.
+Proof. induction l; simpl; auto. Qed.
+Lemma iter_end_after_wait pre s :
+  match fold_left cstep (pre ++ [AWaitWriter; AIterClose]) (Some s) with
+  | Some s' => seen s' = Some true | None => True end.
+Proof.
+  rewrite fold_left_app. destruct (fold_left cstep pre (Some s)) as [s1|]; [|exact I].
+  simpl. destruct (chan_closed s1); simpl; auto.
+Qed.
+
+Lemma iter_end_implies_closed_fastx l arr : Permutation arr (numbered l) ->
+  at_iter_end (fastx_writer arr) closer = Some (mkdev (concat l) 1).
+Proof. intros P. unfold at_iter_end. rewrite closer_sees_closed. now rewrite (fastx_spec _ _ P). Qed.
+Lemma iter_end_implies_closed_json l arr : Permutation arr (numbered l) ->
+  at_iter_end (json_writer arr) closer = Some (mkdev (json_expected l) 1).
+Proof. intros P. unfold at_iter_end. rewrite closer_sees_closed. now rewrite (json_spec _ _ P). Qed.
+Lemma iter_end_implies_closed_csv hdr batches arr : Permutation arr (numbered (csv_record_chunks hdr batches)) ->
+  at_iter_end (csv_writer arr) closer = Some (mkdev (csv_expected hdr batches) 1).
+Proof. intros P. unfold at_iter_end. rewrite closer_sees_closed. now rewrite (csv_records_spec _ _ _ P). Qed.
+Lemma iter_end_orig_nothing d : at_iter_end d closer_orig = None.
+Proof. reflexivity. Qed.
